@@ -15,7 +15,11 @@ def contains_import(tree, module, name):
         if (
             isinstance(node, ast.ImportFrom)
             and node.module == module
-            and any(alias.name == name for alias in node.names)
+            # "import name as other" does not bind name
+            and any(
+                alias.name == name and alias.asname in (None, name)
+                for alias in node.names
+            )
         ):
             return True
     return False
